@@ -128,7 +128,9 @@ def check_string(s, rec, lists):
 
 
 # html trees ------------------------------------------------------------------
-WORDS = ["alpha", "Beta", "gamma", "1 U.S. 1", "x &amp; y", "Foo v. Bar", "délta", "§ 5", "a &lt; b", "&#167; 9", "“q”"]
+WORDS = ["alpha", "Beta", "gamma", "1 U.S. 1", "x &amp; y", "Foo v. Bar", "délta", "§ 5", "a &lt; b", "&#167; 9", "“q”",
+         # visible text that itself looks like a character reference (escaped once more in the source)
+         "&amp;lt;b&amp;gt;", "R&amp;amp;D", "&amp;#167; 5", "&amp;copy 1999", "&amp;nbsp;"]
 INL = ["i", "em", "b", "span", "a", "u", "sup"]
 BLK = ["p", "div", "blockquote", "section"]
 HID = ["script", "style"]
@@ -136,10 +138,12 @@ ENT = {"&amp;": "&", "&lt;": "<", "&#167;": "§", "&#160;": "\u00a0", "&#12;": "
 XML_WS = " \t\r\n"     # what XPath normalize-space() regards as white space
 
 
+_ENT_RX = re.compile("|".join(re.escape(k) for k in ENT))
+
+
 def unesc(s):
-    for k, v in ENT.items():
-        s = s.replace(k, v)
-    return s
+    # ONE pass: '&amp;lt;' is the visible text '&lt;', not '<'
+    return _ENT_RX.sub(lambda m: ENT[m.group(0)], s)
 
 
 def gen_tree(rng, depth, out, ctx="block", used=()):
